@@ -323,6 +323,7 @@ func (m *Manager) newStream(ctx context.Context, sid uint64, kind, rpc string) (
 	// once, and the next NewClientStream must then see this stream as the
 	// previous one, otherwise it computes the same stream id again.
 	m.sbuf.Set(stream)
+	drpcdebug.Point("manager.newStream.afterPublish")
 
 	select {
 	case m.streams <- streamInfo{ctx: ctx, stream: stream}:
